@@ -13,7 +13,7 @@ package main
 // suites added here
 //   vals          (e2e)             row sets vs the Kleene evaluation of the property's reading (the typed value = its scalar)
 //   val.dispatch  (correspondence)  real Statement.BuildCondition(map{col: v}) / (col, v) and clause.Eq.Build on the typed
-//                                   values vs Lean Model/CondValue.lean `mapArm` / `eqRender` on (kind, len, implements …)
+//                                   values vs Lean Model/CondValue.lean `mapArm` / `cvEqText` on (kind, len, implements …)
 //   negation      (e2e)             every clause.* comparison and its NegationBuild on boundary rows (v-1, v, v+1) and NULL rows
 //
 // latitude: a `[]byte` / named byte slice WITHOUT Valuer as a MAP value is not judged (gorm explodes it into IN over its
